@@ -3,6 +3,8 @@ nodality, partition of unity, duality of the lowest-order H(div)/H(curl)
 functionals, mapping (Piola) rules, exhaustive local index chains."""
 from __future__ import annotations
 
+from itertools import product as iprod
+
 import ast
 from fractions import Fraction
 from typing import Any, Dict, List, Tuple
@@ -411,6 +413,60 @@ def _check_mapping(model: Model, rep) -> None:
 
 
 # ----------------------------------------------------------------------
+def _power_basis(model, rep):
+    """ElementGlobal builds its local functions from a power basis whose
+    derivatives are generated as strings (coefficient loops + eval).  The
+    generator is interpreted for every exponent triple and derivative order
+    in range and compared with the exact derivative of the monomial."""
+    R7 = "C09-R7"
+    cls = model.cls("skfem.element.element_global", "ElementGlobal")
+    fn = cls.methods.get("_pbasis_create")
+    if fn is None:
+        raise AnalysisError("ElementGlobal._pbasis_create not found")
+    X = [Poly.sym(v) for v in "xyz"]
+    obj = Obj(cls, {})
+    n = 0
+    for dim, emax, dmax in ((1, 7, 6), (2, 5, 4), (3, 3, 3)):
+        bad = None
+        rng = range(emax + 1)
+        for exps in iprod(*([rng] * dim)):
+            for ds in iprod(*([range(dmax + 1)] * dim)):
+                n += 1
+                kw = dict(zip(("dx", "dy", "dz"), ds))
+                try:
+                    it = Interp(model)
+                    f = it.call(fn, list(exps), kw, self_obj=obj)
+                    got = it.apply(f, X[:dim], {}, fn.node)
+                except Raised as e:
+                    bad = bad or (exps, ds, f"raises {e.what}", None)
+                    continue
+                except Unsupported as e:
+                    raise AnalysisError(f"_pbasis_create{exps}{ds}: {e}")
+                want = Poly.const(1)
+                for v, p_ in zip("xyz", exps):
+                    for _ in range(p_):
+                        want = want * Poly.sym(v)
+                for v, d_ in zip("xyz", ds):
+                    for _ in range(d_):
+                        want = want.diff(v)
+                if Poly.coerce(got) != want and bad is None:
+                    bad = (exps, ds, Poly.coerce(got), want)
+        cons = f"ElementGlobal._pbasis_create[{dim}d]"
+        if bad is None:
+            rep.ok(R7, cons, f"exponents 0..{emax}, derivative orders "
+                   f"0..{dmax} per variable: generated term == exact "
+                   f"derivative of the monomial")
+        else:
+            exps, ds, got, want = bad
+            rep.fail(R7, fn.path, "ElementGlobal._pbasis_create", cons,
+                     f"derivative orders {ds} of the monomial with exponents "
+                     f"{exps}: generated {got}, exact derivative {want} - "
+                     f"the delivered higher derivatives of every "
+                     f"ElementGlobal element of this dimension are not "
+                     f"derivatives of the delivered value", fn.lineno)
+    rep.units("power-basis derivative instances", n)
+
+
 def run(model: Model, rep, tier: str) -> None:
     rep.rule("C09-R1", "delivered derivative field == derivative of the "
              "delivered value (grad / div / curl) as polynomial identity")
@@ -423,6 +479,9 @@ def run(model: Model, rep, tier: str) -> None:
              "branches alike, for the requested cell subset")
     rep.rule("C09-R6", "local index chain covers exactly 0..N-1 and index N "
              "raises")
+    rep.rule("C09-R7", "ElementGlobal power basis: every generated "
+             "derivative term is the exact derivative of its monomial")
+    _power_basis(model, rep)
     refdoms = load_refdoms(model)
     els = load_elements(model, refdoms)
     n_cls = n_fn = 0
@@ -725,6 +784,15 @@ def _duality(rep, e: ElementInfo, name, path, ln):
 # ----------------------------------------------------------------------
 _E = "skfem/element/"
 MUTANTS = [
+    ("power basis: repeated z-derivatives use a constant factor",
+     ("skfem/element/element_global.py",
+      "                    cz *= k - dz + l", "                    cz *= k - "
+      "dz + 1"), "C09-R7"),
+    ("power basis 2d: y-coefficient from the x exponent",
+     ("skfem/element/element_global.py",
+      "                    cy *= j - dy + l\n            return eval((\"lambda"
+      " x, y: ", "                    cy *= i - dy + l\n            return "
+      "eval((\"lambda x, y: "), "C09-R7"),
     ("H1: one coefficient of a gradient (ElementTriP2)",
      (_E + "element_tri/element_tri_p2.py",
       "dphi = np.array([4. * x - 1, 0. * x])",
